@@ -3,7 +3,11 @@
 
 mod c13;
 mod c16;
+mod c33;
+mod c34;
 mod entropy;
+mod misc;
+mod tgen;
 mod env;
 mod genr;
 mod lockstep;
@@ -64,7 +68,13 @@ macro_rules! checks {
             ("C16", c16::C16),
             ("C27", mchecks::C27),
             ("C28", runner::Both { id: "C28", a: mchecks::C28, b: c13::C13 { observer_arm: true }, a_share: 6, rule: "Arm A (6/8): per-step exactness against RefLc3 (see C28 lockstep rule: read/written/modified sets per step_in, untracked host accesses in between). Arm B (2/8): accumulation — the observer after run/run_with_limit/run_while/step_over/step_out equals the union of the per-step observer sets of a twin simulator driven by step_in over the same boundaries, and is empty after being taken." }),
-            ("C31", pairs::C31)
+            ("C15", misc::C15),
+            ("C29", misc::C29),
+            ("C30", misc::C30),
+            ("C31", pairs::C31),
+            ("C32", misc::C32),
+            ("C33", c33::C33),
+            ("C34", c34::C34)
         );
     };
 }
